@@ -935,7 +935,10 @@ class Gen:
                     selfoverlap = any(st_ == 0 and d > 1 for st_, d in zip(A_.strides, A_.shape))
                     # (a broadcast view is not eligible: detached, its elements alias each other - a leaf whose
                     #  "value" has fewer degrees of freedom than elements)
-                    if reused is None and not selfoverlap and self.rng.random() < self.p.get("p_reuse_stale", 0.0):
+                    # (nor is a view that was taken with the memory guard off: if its base was locked at that moment the view's
+                    #  array was born read-only and nobody tracks it - an in-place update through it is refused for good)
+                    if reused is None and not selfoverlap and h not in self.unguarded \
+                            and self.rng.random() < self.p.get("p_reuse_stale", 0.0):
                         # ONE disconnected view of the epoch that ended goes on being used (as an operand, as the parent
                         # of new views): its base lingers until its next use, then it is a base of its own.  Every other
                         # tensor over the same memory is retired (observed, never used again): a detached view and its
@@ -1091,7 +1094,7 @@ PROFILES = {
                 w_view=0.25, w_inplace=0.1, max_leaves=3, max_steps=6, p_const_leaf=0.15, p_seed=0.55, p_bad_seed=0.15,
                 p_nonscalar_L=0.7, p_f32_leaf=0.35),
     "c15": dict(functional=["bin", "bin", "un", "red", "matmul", "gathercopy"], w_func=0.4, w_view=0.3, w_inplace=0.3,
-                max_leaves=2, max_steps=9, p_const_leaf=0.2, p_scope=0.3, max_epochs=2),
+                max_leaves=2, max_steps=9, p_const_leaf=0.2, p_scope=0.3, max_epochs=3, p_keep_stale=0.4, p_reuse_stale=0.6),
     "c07": dict(functional=["bin", "un", "red", "matmul", "gathercopy"], w_func=0.5, w_view=0.3, w_inplace=0.2, max_leaves=2,
                 max_steps=5, max_epochs=3, p_const_leaf=0.1, w_misc=0.1, misc=["nullgrad", "copy"], p_keep_stale=0.4, p_reuse_stale=0.5,
                 p_drop=0.35),
